@@ -89,7 +89,7 @@ TEXT = {
 _ADDED = {
     'C01': ' Later additions: containers of numpy scalars and narrow numpy dtypes, complex values written by index into objects holding reals (and the reverse), complex values converted from another fixed-point object by six routes. Tiny floats (subnormals, smallest normals) whose scaled product is not representable.',
     'C02': ' Later additions: limits must be complex exactly while complex values are held; objects that are their own op_out / op_out_like target and their like= / template= / indexing derivations. Scale / bias given with like=; floats at the limits of 54..63-bit results of core operands; NumPy functions fxpmath does not implement itself and mean / std / var return well-formed objects.',
-    'C03': ' Later additions: wide words with negative n_frac; + - * delivered through out_like / out / numpy out= / call / config.op_out into a wrap register of a third format (any rounding, usually fewer fraction bits); sum / cumsum / max / min / dot accumulated into such registers, and reductions of a wrap operand with same sizing.',
+    'C03': ' Later additions: wide words with negative n_frac; + - * delivered through out_like / out / numpy out= / call / config.op_out into a wrap register of a third format (any rounding, usually fewer fraction bits); sum / cumsum / max / min / dot accumulated into such registers, and reductions of a wrap operand with same sizing. Values held by another fixed-point object (rounding carry at the range ends).',
     'C04': ' Later additions: unary -,+,abs, like(), fxp_sum, callbacks given next to like= / template=, one complex boundary write per notification. Masked / fancy / empty-selection indexed writes; modes set through the mirror attributes.',
     'C06': ' Later additions: narrow numpy carriers, arrays in the capped case (asserted at the 64-bit word too), long-fraction doubles of both signs, a given n_frac up to the word limit or negative.',
     'C07': ' Later additions: operands whose status record already carries overflow / underflow from earlier writes (result flags must be clean).',
